@@ -435,7 +435,7 @@ theorem gen_gk (e : Env) (hrt : RTPos e) : ∀ (g : Gen) (lab : Bool), g.NoCusto
       · simp only [Prog.run, Out.ofRes, Except.ok.injEq] at hres; exact ⟨_, hres.symm⟩
     exact gk_repeatLoop _ step _ hgk (fun acc src ts v hres => Or.inr (hacc acc src ts v hres))
       (fun acc => by split <;> exact GK.ret _) _ _ _
-  | custom body => intro _ h; exact absurd h (by simp [Gen.NoCustom])
+  | custom body => intro _ h; exact False.elim h
   | deferred g ih => intro _ h; exact gk_wrapValue _ (ih _ h) (gen_good e hrt g _ h).fk
   | asAny g ih => intro lab h; exact gk_wrapValue _ (ih lab h) (gen_good e hrt g lab h).fk
   | runeFrom runes =>
